@@ -31,6 +31,7 @@ def run(ctx):
         "the scan for a wrapped destructor in compute_idtor (slice starts after it)",
     ]
     I.capsule_dummy_intent(ctx, tabs)
+    I.copy_array_capacity(ctx, tabs)
     r0 = ctx.monitor("m_idtor", "search", 100, ctx.seed)
     ctx.bounded.append({"monitor": "m_idtor", "inputs_tried": r0["tried"], "violation": r0["violation"],
                         "kind": "bounded: generated text of 6 class libraries (same class name in two namespaces, nested namespaces, "
